@@ -71,6 +71,10 @@ def gen_cases(tier, seed):
             # both statements of the problem are moved in place (same physical displacement) after meshing, before the run
             W = dev["film"].get("w", 4.0)
             case["pre_move"] = [float(rng.uniform(0.2, 0.6) * W), float(-rng.uniform(0.1, 0.4) * W)]
+        if k % 2 == 0:
+            # ONE SolverOptions object for both statements: solved in the first unit system, then its unit fields (and the numbers
+            # that depend on them) are changed and the problem is solved again; the FIRST solution keeps answering in its own units
+            case["shared_options"] = True
         cases.append(case)
     nl1 = 6 if tier == "quick" else 40
     for k in range(nl1):
@@ -143,7 +147,27 @@ def _l2(spec):
             had_terminals = [len(t.site_indices) for t in dev.terminal_info()]  # raises here if the zoo's terminal misses the boundary
             dev.translate(spec["pre_move"][0] * LSC[lu], spec["pre_move"][1] * LSC[lu], inplace=True)
         keep = _Keep()
-        rr = sim.run_sim({"device": d, "options": o, "drive": dr}, [keep], device=dev, keep_dir=True)
+        opt_obj = None
+        if spec.get("shared_options") and runs:
+            # the caller edits the options object of the first run and uses it again
+            import dataclasses
+
+            opt_obj = runs[0][1].options
+            sp_ = sim.resolve_auto_dt({"device": d, "options": dict(o), "drive": {}}, dev)
+            fresh_ = sim.build_options(sp_["options"], output_file=None)
+            for f_ in dataclasses.fields(fresh_):
+                setattr(opt_obj, f_.name, getattr(fresh_, f_.name))
+        rr = sim.run_sim({"device": d, "options": o, "drive": dr}, [keep], device=dev, keep_dir=True, options_obj=opt_obj)
+        if spec.get("shared_options") and not runs and rr.solution is not None and rr.exception is None:
+            # what the first solution says about itself before the options object is touched again
+            s0_ = rr.solution
+            ext0_ = float(np.ptp(s0_.device.points[:, 0]))
+            P0_ = np.array([[0.1 * ext0_, -0.2 * ext0_, 0.4 * ext0_], [-0.3 * ext0_, 0.25 * ext0_, 0.9 * ext0_]])
+            first_view = {"field_units": str(s0_.field_units), "current_units": str(s0_.current_units), "P": P0_,
+                          "A_own_units": np.array(s0_.vector_potential_at_position(P0_, with_units=False), copy=True),
+                          "A_SI": np.array(s0_.vector_potential_at_position(P0_, units="T * m", with_units=False), copy=True),
+                          "B_own_units": np.array(s0_.field_at_position(P0_, with_units=False), copy=True),
+                          "K_own_units": np.array(s0_.current_density.magnitude, copy=True), "K_units": str(s0_.current_density.units)}
         if rr.refused and spec.get("pre_move") and "covers no boundary edge" in str(rr.refused):
             # the terminals found their boundary sites before the rigid move and do not find them afterwards
             return {"violations": [{"kind": "moved_device_loses_its_terminals", "mechanism": "mesh_and_polygons_moved_differently",
@@ -164,6 +188,22 @@ def _l2(spec):
         runs.append((keep.ups, rr, (lu, fu, cu)))
     (a, rra, ua), (b, rrb, ub) = runs
     V, C, W = [], {"unit_pairs": 1, "steps_compared": 0, "physical_output_checks": 0}, {}
+    if spec.get("shared_options") and rra.solution is not None:
+        # the first solution after the caller has re-used (and edited) its options object for another unit system
+        C["first_solution_after_options_reuse_checks"] = 1
+        s0_ = rra.solution
+        fv = first_view
+        now = {"field_units": str(s0_.field_units), "current_units": str(s0_.current_units),
+               "A_own_units": np.asarray(s0_.vector_potential_at_position(fv["P"], with_units=False)),
+               "A_SI": np.asarray(s0_.vector_potential_at_position(fv["P"], units="T * m", with_units=False)),
+               "B_own_units": np.asarray(s0_.field_at_position(fv["P"], with_units=False)),
+               "K_own_units": np.asarray(s0_.current_density.magnitude), "K_units": str(s0_.current_density.units)}
+        changed = [k_ for k_ in now if (now[k_] != fv[k_] if isinstance(now[k_], str) else not np.array_equal(now[k_], fv[k_]))]
+        if changed:
+            det = {"changed": changed, "units_first_run": list(ua), "units_second_run": list(ub), "field_units_now": now["field_units"], "current_units_now": now["current_units"]}
+            if "A_SI" in changed:
+                det["A_SI_ratio"] = float(np.max(np.abs(now["A_SI"])) / (np.max(np.abs(fv["A_SI"])) + 1e-300))
+            V.append({"kind": "finished_solution_follows_later_edits_of_the_options", "mechanism": "physical_output_depends_on_units", "detail": det})
     gate = 1e-7
     if spec["options"].get("include_screening"):
         gate = max(gate, 10 * spec["options"]["screening_tolerance"])
@@ -282,6 +322,29 @@ def _l2(spec):
         C["physical_output_checks"] += 1
         if r > gate:
             V.append({"kind": "physical_field_depends_on_units", "mechanism": "physical_output_depends_on_units", "detail": {"rel": r, "units": [ua, ub]}})
+        # the same question on whole-number lateral positions (integer-typed arrays, as np.mgrid / np.arange give them) with a
+        # constant height that is a whole number in the finer unit and not in the coarser one (1.5 um = 1500 nm)
+        zq = (np.floor(0.4 * ext) + 0.5)
+        Gq = np.array([[i_, j_] for i_ in (-1, 0, 1) for j_ in (-1, 1)], dtype=np.int64) * max(1, int(np.floor(0.5 * ext)))
+        Bref = None
+        for nm_, sx, uu in (("a", sa, ua), ("b", sb, ub)):
+            f_ = LSC[uu[0]]
+            if f_ < 1:
+                continue  # (in mm the positions are not whole numbers)
+            C["physical_output_checks"] += 1
+            try:
+                Bint = np.asarray(sx.field_at_position(Gq * int(f_), zs=float(zq * f_), units="T", with_units=False))
+                Bflt = np.asarray(sx.field_at_position(Gq.astype(float) * f_, zs=float(zq * f_), units="T", with_units=False))
+            except Exception as exc_:  # noqa: BLE001
+                V.append({"kind": "physical_field_depends_on_units", "mechanism": "physical_output_depends_on_units",
+                          "detail": {"what": "integer-typed positions with a scalar height", "units": uu, "height_um": float(zq), "raised": repr(exc_)[:200]}})
+                continue
+            Bref = Bflt if Bref is None else Bref
+            for lab_, Bx_ in (("integer-typed vs floating-point positions", Bint), ("across unit systems", Bflt)):
+                r = float(np.max(np.abs(Bx_ - Bref))) / max(float(np.max(np.abs(Bref))), 1e-300)
+                if r > gate:
+                    V.append({"kind": "physical_field_depends_on_units", "mechanism": "physical_output_depends_on_units",
+                              "detail": {"what": "whole-number positions, constant height " + str(float(zq)) + " um: " + lab_, "rel": r, "units": uu}})
     import shutil
 
     for rr in (rra, rrb):
